@@ -1,8 +1,8 @@
 SPECIFICATION Spec
 CONSTANTS
-  Programs <- AllPrograms
-  QuerySeqs <- QS3
-  Permute = FALSE
+  Programs <- FamilyCyc
+  QuerySeqs <- QS2
+  Permute = TRUE
   CheckOnTableHit = FALSE
   RepairFalseResult = FALSE
 VIEW view
